@@ -304,8 +304,8 @@ Proof.
   apply str_eqb_neq in E. rewrite find_filter_other by congruence. reflexivity.
 Qed.
 
-Lemma qfile_get_mark_dir q d p : qfile_get (mark_dir q d) p = qfile_get q p.
-Proof. unfold mark_dir. destruct (is_dot (normdir d)); reflexivity. Qed.
+Lemma qfile_get_mark_dir trees q d p : qfile_get (mark_dir trees q d) p = qfile_get q p.
+Proof. unfold mark_dir. destruct (is_dot (normdir d) || _); reflexivity. Qed.
 
 Lemma queue_owned_set g q p v : queue_owned g q -> node_owns g p v -> queue_owned g (qfile_set q p v).
 Proof.
@@ -314,7 +314,7 @@ Proof.
   - apply Hq. exact Hg.
 Qed.
 
-Lemma queue_owned_mark g q d : queue_owned g q -> queue_owned g (mark_dir q d).
+Lemma queue_owned_mark g trees q d : queue_owned g q -> queue_owned g (mark_dir trees q d).
 Proof. intros Hq p v Hg. rewrite qfile_get_mark_dir in Hg. apply Hq. exact Hg. Qed.
 
 Lemma queue_owned_empty g : queue_owned g empty_queue.
@@ -325,7 +325,8 @@ Definition row_from (g : graph) (n' : node) : Prop :=
   exists n, In n (gnodes g) /\ nkey n = nkey n' /\
     ((nfstate n' = nfstate n /\ nfhash n' = nfhash n) \/ nfstate n' = revert_to).
 
-Lemma before_delete_owned g q n' : queue_owned g q -> row_from g n' -> queue_owned g (before_delete n' q).
+Lemma before_delete_owned g trees q n' :
+  queue_owned g q -> row_from g n' -> queue_owned g (before_delete trees n' q).
 Proof.
   intros Hq [n [Hn [Hk Hrow]]]. unfold before_delete.
   destruct (nkind n' =? KFILE) eqn:Ekind.
@@ -346,8 +347,8 @@ Proof.
   - destruct (nkind n' =? KSTEP); [apply queue_owned_mark|]; exact Hq.
 Qed.
 
-Lemma queue_deleted_owned g deleted : forall q,
-  queue_owned g q -> (forall n', In n' deleted -> row_from g n') -> queue_owned g (queue_deleted deleted q).
+Lemma queue_deleted_owned g trees deleted : forall q,
+  queue_owned g q -> (forall n', In n' deleted -> row_from g n') -> queue_owned g (queue_deleted trees deleted q).
 Proof.
   unfold queue_deleted. induction deleted as [|d deleted IH]; intros q Hq Hall; [exact Hq|].
   cbn [fold_left]. apply IH.
@@ -356,8 +357,8 @@ Proof.
 Qed.
 
 (* revert_optional_steps *)
-Lemma revert_queue_node_owned g q n :
-  queue_owned g q -> In n (gnodes g) -> is_revert_target g n = true -> queue_owned g (revert_queue_node n q).
+Lemma revert_queue_node_owned g trees q n :
+  queue_owned g q -> In n (gnodes g) -> is_revert_target g n = true -> queue_owned g (revert_queue_node trees n q).
 Proof.
   intros Hq Hn Ht. unfold revert_queue_node. apply queue_owned_mark.
   unfold is_revert_target in Ht. apply andb_true_iff in Ht. destruct Ht as [Ht _].
@@ -376,7 +377,8 @@ Lemma revert_optional_owned g q :
 Proof.
   intros Hq. unfold revert_optional. cbn [snd].
   assert (forall l q0, (forall n, In n l -> In n (gnodes g) /\ is_revert_target g n = true) ->
-            queue_owned g q0 -> queue_owned g (fold_left (fun q n => revert_queue_node n q) l q0)) as Hgen.
+            queue_owned g q0 ->
+            queue_owned g (fold_left (fun q n => revert_queue_node (attached_tree_labels g) n q) l q0)) as Hgen.
   { induction l as [|a l IH]; intros q0 Hl Hq0; [exact Hq0|]. cbn [fold_left]. apply IH.
     - intros n Hin. apply Hl. right. exact Hin.
     - destruct (Hl a (or_introl eq_refl)) as [Ha1 Ha2]. apply revert_queue_node_owned; assumption. }
@@ -441,7 +443,7 @@ Lemma finalize_unguarded c g f :
   finalize c (init_state g f) =
   let '(g1, q1) := revert_optional g empty_queue in
   let o := workflow_dd g1 in
-  let q2 := queue_deleted (dd_deleted o) q1 in
+  let q2 := queue_deleted (attached_tree_labels g1) (dd_deleted o) q1 in
   let r := remove_deletable_files q2 f in
   mkFin (dd_g o) empty_queue (r_fs r) (r_files r) (r_dirs r) (dd_err o).
 Proof.
@@ -454,7 +456,7 @@ Qed.
 
 Lemma finalize_queue_owned g :
   let '(g1, q1) := revert_optional g empty_queue in
-  queue_owned g (queue_deleted (dd_deleted (workflow_dd g1)) q1).
+  queue_owned g (queue_deleted (attached_tree_labels g1) (dd_deleted (workflow_dd g1)) q1).
 Proof.
   pose proof (revert_optional_owned g empty_queue (queue_owned_empty g)) as H1.
   destruct (revert_optional g empty_queue) as [g1 q1] eqn:Hr. cbn [snd] in H1.
@@ -483,9 +485,9 @@ Proof.
   - unfold finalize, finalize_with in Hp. rewrite Hg in Hp. destruct Hp.
   - rewrite (finalize_unguarded c g f Hg) in Hp. pose proof (finalize_queue_owned g) as Hown.
     destruct (revert_optional g empty_queue) as [g1 q1]. cbv zeta in Hp. cbn [s_files] in Hp.
-    destruct (rdf_trace (queue_deleted (dd_deleted (workflow_dd g1)) q1) f) as [_ Hok].
+    destruct (rdf_trace (queue_deleted (attached_tree_labels g1) (dd_deleted (workflow_dd g1)) q1) f) as [_ Hok].
     destruct (Hok p Hp) as [h0 [Hf Hq]].
-    assert (exists v, qfile_get (queue_deleted (dd_deleted (workflow_dd g1)) q1) p = Some v /\
+    assert (exists v, qfile_get (queue_deleted (attached_tree_labels g1) (dd_deleted (workflow_dd g1)) q1) p = Some v /\
                       (v = None \/ v = Some h0)) as [v [Hv Hvv]].
     { destruct Hq as [Hq|Hq]; [exists None | exists (Some h0)]; split; auto. }
     destruct (Hown p v Hv) as [n [Hn [Hkind [Hlab Hrole]]]].
@@ -686,7 +688,571 @@ Qed.
 (* an adopted file is not queued by File.before_delete *)
 Lemma before_delete_static_no_file n q :
   nkind n = KFILE -> memN (nfstate n) bd_volatile_states = false -> memN (nfstate n) bd_hashed_states = false ->
-  forall p, qfile_get (before_delete n q) p = qfile_get q p.
+  forall trees p, qfile_get (before_delete trees n q) p = qfile_get q p.
 Proof.
-  intros Hk Hv Hh p. unfold before_delete. rewrite Hk, N.eqb_refl, Hv, Hh. apply qfile_get_mark_dir.
+  intros Hk Hv Hh trees p. unfold before_delete. rewrite Hk, N.eqb_refl, Hv, Hh. apply qfile_get_mark_dir.
+Qed.
+
+(* ---- D12: an emptied directory of a still-declared static tree is removed ------------------- *)
+
+(* what one would want: no removed directory is the root of an attached static tree *)
+Definition dirs_spare_attached_static_trees : Prop :=
+  forall c g f d t,
+    let r := finalize c (init_state g f) in
+    In d (s_dirs r) -> In t (gnodes (s_g r)) -> nkind t = KTREE -> ndet t = false -> nlabel t <> d ++ [SLASH].
+
+Definition d12_data : str := [100; 97; 116; 97].                                   (* "data" *)
+Definition d12_d1 : str := d12_data ++ [SLASH; 100; 49; 46; 116; 120; 116].         (* "data/d1.txt" *)
+Definition d12_o : str := [111; 46; 116; 120; 116].                                 (* "o.txt" *)
+Definition d12_graph : graph :=
+  let root := (KROOT, []) in let plan := (KSTEP, [112]) in let tree := (KTREE, d12_data ++ [SLASH]) in
+  let t := (KSTEP, [116]) in
+  mkGraph [mkNode root (Some root) false 0 None false 0 0;
+           mkNode plan (Some root) false 0 None true 34 23;
+           mkNode tree (Some plan) false 0 None false 0 0;
+           mkNode (KFILE, d12_d1) (Some tree) false FS_MISSING None false 0 0;     (* the user deleted it *)
+           mkNode t None true 0 None true 32 23;                                    (* dropped from the plan *)
+           mkNode (KFILE, d12_o) (Some t) true FS_BUILT (Some 1) false 0 0]
+          [((KFILE, d12_d1), t); (t, (KFILE, d12_o))].
+Definition d12_fs : fsys := [(d12_data, FDir); (d12_o, FFile 1)].
+
+Theorem dirs_spare_attached_static_trees_refuted :
+  mark_dir_skips_static_trees = false -> ~ dirs_spare_attached_static_trees.
+Proof.
+  intros Hflag H. unfold mark_dir_skips_static_trees in Hflag.
+  first
+    [ discriminate Hflag
+    | apply (H (mkCtx false 0 true) d12_graph d12_fs d12_data
+               (mkNode (KTREE, d12_data ++ [SLASH]) (Some (KSTEP, [112])) false 0 None false 0 0));
+      [ vm_compute; left; reflexivity
+      | vm_compute; right; right; left; reflexivity
+      | reflexivity | reflexivity | reflexivity ] ].
+Qed.
+
+(* ---- stepup clean -------------------------------------------------------------------------- *)
+
+Lemma insert_node_desc_in x l y : In y (insert_node_desc x l) -> y = x \/ In y l.
+Proof.
+  induction l as [|a l IH]; cbn [insert_node_desc]; intros H.
+  - destruct H as [<-|[]]. left. reflexivity.
+  - destruct (lex_lt (nlabel x) (nlabel a)).
+    + destruct H as [<-|H]; [right; left; reflexivity|]. destruct (IH H) as [->|H']; [left; reflexivity | right; right; exact H'].
+    + destruct H as [<-|H]; [left; reflexivity | right; exact H].
+Qed.
+
+Lemma sort_nodes_desc_in l y : In y (sort_nodes_desc l) -> In y l.
+Proof.
+  induction l as [|a l IH]; cbn [sort_nodes_desc fold_right]; intros H; [exact H|].
+  apply insert_node_desc_in in H. destruct H as [->|H]; [left; reflexivity | right; apply IH; exact H].
+Qed.
+
+Lemma clean_one_removed a f n f' :
+  clean_one a f n = (f', CRemoved) ->
+  exists h, fs_get f (nlabel n) = Some (FFile h) /\ f' = fs_del f (nlabel n) /\ a_commit a = true /\
+    (memN (nfstate n) volatile_states = true \/ nfhash n = Some h \/ a_safe a = false).
+Proof.
+  unfold clean_one. destruct (fs_get f (nlabel n)) as [[h|]|] eqn:Hg.
+  - destruct (memN (nfstate n) volatile_states) eqn:Hv.
+    + rewrite andb_false_r. destruct (a_commit a) eqn:Hc; intros H; inversion H; subst.
+      exists h. repeat split; try reflexivity. left. reflexivity.
+    + destruct (nfhash n) as [r|] eqn:Hh.
+      * destruct (h =? r) eqn:He; cbn [negb].
+        -- rewrite andb_false_r. destruct (a_commit a) eqn:Hc; intros H; inversion H; subst.
+           apply N.eqb_eq in He. subst r. exists h. repeat split; try reflexivity. right. left. reflexivity.
+        -- rewrite andb_true_r. destruct (a_safe a) eqn:Hs; [intros H; inversion H|].
+           destruct (a_commit a) eqn:Hc; intros H; inversion H; subst.
+           exists h. repeat split; try reflexivity. right. right. reflexivity.
+      * cbn [negb]. rewrite andb_true_r. destruct (a_safe a) eqn:Hs; [intros H; inversion H|].
+        destruct (a_commit a) eqn:Hc; intros H; inversion H; subst.
+        exists h. repeat split; try reflexivity. right. right. reflexivity.
+  - destruct (memN (nfstate n) volatile_states); [|intros H; inversion H].
+    rewrite andb_false_r. destruct (a_commit a); intros H; inversion H.
+  - intros H; inversion H.
+Qed.
+
+Lemma clean_one_other a f n f' st : clean_one a f n = (f', st) -> st <> CRemoved -> f' = f.
+Proof.
+  unfold clean_one. destruct (fs_get f (nlabel n)) as [[h|]|].
+  - destruct (if memN (nfstate n) volatile_states then _ else _) as [changed|].
+    + destruct (a_safe a && changed); [intros H; inversion H; reflexivity|].
+      destruct (a_commit a); intros H; inversion H; subst; [congruence | reflexivity].
+    + intros H; inversion H; reflexivity.
+  - destruct (if memN (nfstate n) volatile_states then _ else _) as [changed|].
+    + destruct (a_safe a && changed); [intros H; inversion H; reflexivity|].
+      destruct (a_commit a); intros H; inversion H; reflexivity.
+    + intros H; inversion H; reflexivity.
+  - intros H; inversion H; reflexivity.
+Qed.
+
+Definition clean_ok (a : clean_args) (f0 : fsys) (sel : list node) (p : str) : Prop :=
+  exists n h0, In n sel /\ nlabel n = p /\ a_commit a = true /\ fs_get f0 p = Some (FFile h0) /\
+    (memN (nfstate n) volatile_states = true \/ nfhash n = Some h0 \/ a_safe a = false).
+
+Lemma clean_loop_inv a f0 sel ns : forall f removed f' removed' crash,
+  (forall n, In n ns -> In n sel) ->
+  trace_inv f0 f removed [] -> (forall x, In x removed -> clean_ok a f0 sel x) ->
+  clean_loop a ns f removed = (f', removed', crash) ->
+  trace_inv f0 f' removed' [] /\ (forall x, In x removed' -> clean_ok a f0 sel x).
+Proof.
+  induction ns as [|n ns IH]; intros f removed f' removed' crash Hsel Hinv Hok Hrun.
+  - cbn [clean_loop] in Hrun. inversion Hrun; subst. split; assumption.
+  - cbn [clean_loop] in Hrun. destruct (clean_one a f n) as [f1 st] eqn:Hone.
+    assert (forall m, In m ns -> In m sel) as Hsel' by (intros m Hm; apply Hsel; right; exact Hm).
+    destruct st.
+    + assert (f1 = f) as -> by (apply (clean_one_other _ _ _ _ _ Hone); discriminate).
+      apply (IH _ _ _ _ _ Hsel' Hinv Hok Hrun).
+    + destruct (clean_one_removed _ _ _ _ Hone) as [h [Hg [-> [Hc Hwhy]]]].
+      apply (IH _ _ f' removed' crash Hsel' (trace_inv_file _ _ _ _ _ h Hinv Hg)); [|exact Hrun].
+      intros x [<-|Hx]; [|apply Hok; exact Hx].
+      exists n, h. split; [apply Hsel; left; reflexivity | split; [reflexivity | split; [exact Hc|]]].
+      split; [apply (ti_sub _ _ _ _ Hinv); exact Hg | exact Hwhy].
+    + assert (f1 = f) as -> by (apply (clean_one_other _ _ _ _ _ Hone); discriminate).
+      inversion Hrun; subst. split; assumption.
+Qed.
+
+Lemma walk_up_inv f0 files fuel : forall d f dirs f' log,
+  trace_inv f0 f files dirs -> walk_up fuel d f dirs = (f', log) -> trace_inv f0 f' files log.
+Proof.
+  induction fuel as [|fuel IH]; intros d f dirs f' log Hinv Hrun.
+  - cbn [walk_up] in Hrun. inversion Hrun; subst. exact Hinv.
+  - cbn [walk_up] in Hrun. destruct (is_dot d || str_eqb d [SLASH]).
+    + inversion Hrun; subst. exact Hinv.
+    + destruct (rmdir_if_empty f d) as [f1 b] eqn:Hr. apply rmdir_if_empty_spec in Hr.
+      destruct Hr as [[-> [Hg [He ->]]]|[-> ->]].
+      * apply (IH _ _ _ _ _ (trace_inv_dir _ _ _ _ _ Hinv Hg He) Hrun).
+      * inversion Hrun; subst. exact Hinv.
+Qed.
+
+Lemma walk_up_fold_inv f0 files parents : forall f dirs f' log,
+  trace_inv f0 f files dirs ->
+  fold_left (fun acc d => let '(ff, lg) := acc in walk_up (S (length d)) d ff lg) parents (f, dirs) = (f', log) ->
+  trace_inv f0 f' files log.
+Proof.
+  induction parents as [|d parents IH]; intros f dirs f' log Hinv Hrun.
+  - cbn [fold_left] in Hrun. inversion Hrun; subst. exact Hinv.
+  - cbn [fold_left] in Hrun. destruct (walk_up (S (length d)) d f dirs) as [f1 l1] eqn:Hw.
+    apply (IH _ _ _ _ (walk_up_inv _ _ _ _ _ _ _ _ Hinv Hw) Hrun).
+Qed.
+
+Lemma clean_tool_trace g a trs f :
+  let r := clean_tool g a trs f in
+  trace_inv f (k_fs r) (k_files r) (k_dirs r) /\
+  (forall x, In x (k_files r) -> clean_ok a f (clean_selected g a trs) x).
+Proof.
+  unfold clean_tool.
+  destruct (clean_loop a (sort_nodes_desc (clean_selected g a trs)) f []) as [[f1 removed] crash] eqn:Hloop.
+  destruct (clean_loop_inv a f (clean_selected g a trs) _ f [] f1 removed crash
+              (fun n Hn => sort_nodes_desc_in _ _ Hn) (trace_inv_init f)
+              (fun x (H : In x []) => match H with end) Hloop) as [Hinv Hok].
+  assert (forall fa fl dl, trace_inv f fa fl dl -> trace_inv f fa (rev fl) (rev dl)) as Hrev.
+  { intros fa fl dl [A B C D]. constructor.
+    - exact A.
+    - intros p H0 Hn. destruct (B p H0 Hn) as [H|H]; [left | right]; apply -> in_rev; exact H.
+    - intros p Hp. apply in_rev in Hp. apply C. exact Hp.
+    - intros d Hd. apply in_rev in Hd. destruct (D d Hd) as [D1 [D2 D3]]. split; [exact D1 | split; [exact D2|]].
+      intros p Hu H0. destruct (D3 p Hu H0) as [H|H]; [left | right]; apply -> in_rev; exact H. }
+  destruct crash.
+  - cbn [k_fs k_files k_dirs]. split; [apply (Hrev f1 removed []); exact Hinv|].
+    intros x Hx. apply in_rev in Hx. apply Hok. exact Hx.
+  - destruct (fold_left _ _ (f1, [])) as [f2 dlog] eqn:Hfold. cbn [k_fs k_files k_dirs].
+    split; [apply Hrev; apply (walk_up_fold_inv _ _ _ _ _ _ _ Hinv Hfold)|].
+    intros x Hx. apply in_rev in Hx. apply Hok. exact Hx.
+Qed.
+
+Theorem removed_only_owned_clean g a trs f ever :
+  ever_inv g ever ->
+  forall p, In p (k_files (clean_tool g a trs f)) -> owned_removal g f ever (negb (a_safe a)) p.
+Proof.
+  intros Hev p Hp. destruct (clean_tool_trace g a trs f) as [_ Hok].
+  destruct (Hok p Hp) as [n [h0 [Hsel [Hlab [_ [Hf Hwhy]]]]]].
+  unfold clean_selected in Hsel. apply filter_In in Hsel. destruct Hsel as [Hn Hcond].
+  apply andb_true_iff in Hcond. destruct Hcond as [Hcond _].
+  apply andb_true_iff in Hcond. destruct Hcond as [Hcond Hstate].
+  apply andb_true_iff in Hcond. destruct Hcond as [Hkind _]. apply N.eqb_eq in Hkind.
+  pose proof (gen_clean_select _ Hstate) as Hout.
+  exists n, h0. split; [exact Hn | split; [exact Hkind | split; [exact Hlab|]]].
+  split; [rewrite <- Hlab; apply Hev; assumption|].
+  split; [apply gen_roles_disjoint; exact Hout|]. split; [exact Hout|]. split; [exact Hf|].
+  destruct Hwhy as [H|[H|H]]; [left; exact H | right; left; exact H | right; right; rewrite H; reflexivity].
+Qed.
+
+Theorem dir_removed_only_if_empty_clean g a trs f :
+  let r := clean_tool g a trs f in dirs_only_when_emptied f (k_fs r) (k_files r) (k_dirs r).
+Proof. cbv zeta. apply trace_inv_dirs. apply clean_tool_trace. Qed.
+
+(* without --commit nothing is removed *)
+Theorem clean_without_commit g a trs f : a_commit a = false -> k_files (clean_tool g a trs f) = [].
+Proof.
+  intros Hc. destruct (clean_tool_trace g a trs f) as [_ Hok].
+  destruct (k_files (clean_tool g a trs f)) as [|x l] eqn:E; [reflexivity|].
+  destruct (Hok x (or_introl eq_refl)) as [n [h0 [_ [_ [Hcommit _]]]]]. congruence.
+Qed.
+
+(* ---- C07: orphans are removed from graph and disk ------------------------------------------ *)
+
+Lemma revert_node_key g n : nkey (revert_node g n) = nkey n.
+Proof. unfold revert_node. destruct (is_optional_step n); [reflexivity|]. destruct (_ && _); reflexivity. Qed.
+Lemma revert_node_det g n : ndet (revert_node g n) = ndet n.
+Proof. unfold revert_node. destruct (is_optional_step n); [reflexivity|]. destruct (_ && _); reflexivity. Qed.
+Lemma revert_node_creator g n : ncreator (revert_node g n) = ncreator n.
+Proof. unfold revert_node. destruct (is_optional_step n); [reflexivity|]. destruct (_ && _); reflexivity. Qed.
+
+Lemma prestep_node_key g n : nkey (prestep_node g n) = nkey n.
+Proof. unfold prestep_node. destruct (ncreator n); [|reflexivity]. destruct (_ && _); reflexivity. Qed.
+Lemma prestep_node_fstate g n : nfstate (prestep_node g n) = nfstate n.
+Proof. unfold prestep_node. destruct (ncreator n); [|reflexivity]. destruct (_ && _); reflexivity. Qed.
+Lemma prestep_node_fhash g n : nfhash (prestep_node g n) = nfhash n.
+Proof. unfold prestep_node. destruct (ncreator n); [|reflexivity]. destruct (_ && _); reflexivity. Qed.
+Lemma prestep_node_attached g n : ndet (prestep_node g n) = false -> ndet n = false.
+Proof.
+  unfold prestep_node. destruct (ncreator n); [|auto]. destruct (_ && _); [|auto]. cbn [detach_leaf ndet]. discriminate.
+Qed.
+Lemma prestep_node_creator g n k : ncreator (prestep_node g n) = Some k -> ncreator n = Some k.
+Proof.
+  unfold prestep_node. destruct (ncreator n) as [c|] eqn:E.
+  - destruct (_ && _).
+    + cbn [detach_leaf ncreator]. discriminate.
+    + intros H. rewrite E in H. exact H.
+  - intros H. rewrite E in H. discriminate.
+Qed.
+
+(* the graph the deletion loop starts from *)
+Definition cleanup_graph (g : graph) : graph := prestep (fst (revert_optional g empty_queue)).
+
+Lemma cleanup_graph_nodes g :
+  gnodes (cleanup_graph g) =
+  map (fun n => prestep_node (fst (revert_optional g empty_queue)) (revert_node g n)) (gnodes g).
+Proof. unfold cleanup_graph, prestep, revert_optional. cbn [fst gnodes]. rewrite map_map. reflexivity. Qed.
+
+Lemma cleanup_graph_deps g : gdeps (cleanup_graph g) = gdeps g.
+Proof. reflexivity. Qed.
+
+Lemma cleanup_graph_keys g : map nkey (gnodes (cleanup_graph g)) = map nkey (gnodes g).
+Proof.
+  rewrite cleanup_graph_nodes, map_map. apply map_ext. intros n.
+  rewrite prestep_node_key, revert_node_key. reflexivity.
+Qed.
+
+Lemma cleanup_graph_closed g : deps_closed g -> deps_closed (cleanup_graph g).
+Proof.
+  intros Hc d Hd. rewrite cleanup_graph_deps in Hd. destruct (Hc d Hd) as [n [Hn Hk]].
+  exists (prestep_node (fst (revert_optional g empty_queue)) (revert_node g n)). split.
+  - rewrite cleanup_graph_nodes. apply in_map_iff. exists n. split; [reflexivity | exact Hn].
+  - rewrite prestep_node_key, revert_node_key. exact Hk.
+Qed.
+
+(* whatever supports itself after revert + pre-step already did so before *)
+Lemma cleanup_graph_ss g S : self_supporting (cleanup_graph g) S -> self_supporting g S.
+Proof.
+  intros Hss k Hk. destruct (Hss k Hk) as [n' [Hn' [Hkey Hc]]].
+  rewrite cleanup_graph_nodes in Hn'. apply in_map_iff in Hn'. destruct Hn' as [m [<- Hm]].
+  rewrite prestep_node_key, revert_node_key in Hkey.
+  exists m. split; [exact Hm | split; [exact Hkey|]].
+  destruct Hc as [Hc|[x [Hx HxS]]].
+  - left. apply prestep_node_attached in Hc. rewrite revert_node_det in Hc. exact Hc.
+  - right. exists x. split; [|exact HxS]. destruct Hx as [[p' [Hp' [Hpk Hpc]]]|Hd].
+    + left. rewrite cleanup_graph_nodes in Hp'. apply in_map_iff in Hp'. destruct Hp' as [p [<- Hp]].
+      rewrite prestep_node_key, revert_node_key in Hpk. apply prestep_node_creator in Hpc.
+      rewrite revert_node_creator in Hpc. exists p. split; [exact Hp | split; assumption].
+    + right. exact Hd.
+Qed.
+
+(* every node is kept or ends up in the list of deleted nodes *)
+Lemma dd_loop_acc_mono fuel : forall g acc x, In x acc -> In x (snd (dd_loop fuel g acc)).
+Proof.
+  induction fuel as [|fuel IH]; intros g acc x Hx; [exact Hx|].
+  cbn [dd_loop]. destruct (find (eligible g) (gnodes g)); [apply IH; right; exact Hx | exact Hx].
+Qed.
+
+Lemma dd_loop_partition fuel : forall g acc x,
+  keys_nodup g -> In x (gnodes g) ->
+  In x (gnodes (fst (dd_loop fuel g acc))) \/ In x (snd (dd_loop fuel g acc)).
+Proof.
+  induction fuel as [|fuel IH]; intros g acc x Hnd Hx; [left; exact Hx|].
+  cbn [dd_loop]. destruct (find (eligible g) (gnodes g)) as [m|] eqn:Hf; [|left; exact Hx].
+  apply find_some in Hf. destruct Hf as [Hm _].
+  destruct (key_eqb (nkey x) (nkey m)) eqn:E.
+  - apply key_eqb_eq in E. assert (x = m) as -> by (apply (nodup_map_inj nkey (gnodes g)); assumption).
+    right. apply dd_loop_acc_mono. left. reflexivity.
+  - apply key_eqb_neq in E. apply IH; [apply keys_nodup_del; exact Hnd|].
+    apply del_node_nodes_in. split; assumption.
+Qed.
+
+(* what File.before_delete assigns *)
+Definition bd_value (x : node) : option (option N) :=
+  if memN (nfstate x) bd_volatile_states then Some None
+  else if memN (nfstate x) bd_hashed_states then
+    match nfhash x with Some h => Some (Some h) | None => None end
+  else None.
+
+Lemma before_delete_get trees x q p :
+  qfile_get (before_delete trees x q) p =
+  if (nkind x =? KFILE) && str_eqb (nlabel x) p
+  then match bd_value x with Some v => Some v | None => qfile_get q p end
+  else qfile_get q p.
+Proof.
+  unfold before_delete, bd_value. destruct (nkind x =? KFILE) eqn:Ek; cbn [andb].
+  - rewrite qfile_get_mark_dir. destruct (memN (nfstate x) bd_volatile_states).
+    + rewrite qfile_get_set. destruct (str_eqb (nlabel x) p); reflexivity.
+    + destruct (memN (nfstate x) bd_hashed_states).
+      * destruct (nfhash x); [rewrite qfile_get_set|]; destruct (str_eqb (nlabel x) p); reflexivity.
+      * destruct (str_eqb (nlabel x) p); reflexivity.
+  - destruct (nkind x =? KSTEP); [apply qfile_get_mark_dir | reflexivity].
+Qed.
+
+Lemma queue_deleted_keeps trees n2 v p l : forall q,
+  (forall x, In x l -> nkind x = KFILE -> nlabel x = p -> x = n2) ->
+  bd_value n2 = Some v -> qfile_get q p = Some v ->
+  qfile_get (queue_deleted trees l q) p = Some v.
+Proof.
+  unfold queue_deleted. induction l as [|x l IH]; intros q Huniq Hv Hq; [exact Hq|].
+  cbn [fold_left]. apply IH; [intros y Hy; apply Huniq; right; exact Hy | exact Hv|].
+  rewrite before_delete_get. destruct ((nkind x =? KFILE) && str_eqb (nlabel x) p) eqn:E; [|exact Hq].
+  apply andb_true_iff in E. destruct E as [E1 E2]. apply N.eqb_eq in E1. apply str_eqb_eq in E2.
+  rewrite (Huniq x (or_introl eq_refl) E1 E2), Hv. reflexivity.
+Qed.
+
+Lemma queue_deleted_sets trees n2 v l : forall q,
+  In n2 l -> nkind n2 = KFILE ->
+  (forall x, In x l -> nkind x = KFILE -> nlabel x = nlabel n2 -> x = n2) ->
+  bd_value n2 = Some v ->
+  qfile_get (queue_deleted trees l q) (nlabel n2) = Some v.
+Proof.
+  induction l as [|x l IH]; intros q Hin Hk Huniq Hv; [destruct Hin|].
+  assert (forall y, In y l -> nkind y = KFILE -> nlabel y = nlabel n2 -> y = n2) as Huniq'
+    by (intros y Hy; apply Huniq; right; exact Hy).
+  destruct Hin as [->|Hin].
+  - unfold queue_deleted. cbn [fold_left]. apply (queue_deleted_keeps trees n2 v); [exact Huniq' | exact Hv|].
+    rewrite before_delete_get. rewrite Hk, N.eqb_refl, str_eqb_refl, Hv. reflexivity.
+  - unfold queue_deleted. cbn [fold_left]. apply IH; assumption.
+Qed.
+
+(* remove_deletable_files really removes a queued, unmodified file *)
+Lemma rdf_file_shape q f x : fst (rdf_file q f x) = f \/ fst (rdf_file q f x) = fs_del f x.
+Proof.
+  unfold rdf_file, rm_file, refreshed.
+  destruct (qfile_get q x) as [[h|]|]; destruct (fs_get f x) as [[h'|]|]; cbn [fst]; auto.
+  destruct (h' =? h); cbn [fst]; auto.
+Qed.
+
+Lemma fs_del_none_stays f x p : fs_get f p = None -> fs_get (fs_del f x) p = None.
+Proof.
+  intros H. destruct (str_eqb p x) eqn:E.
+  - apply str_eqb_eq in E. subst. apply fs_get_del_same.
+  - apply str_eqb_neq in E. rewrite fs_get_del_other by exact E. exact H.
+Qed.
+
+Lemma rdf_files_none_stays q p ps : forall f log,
+  fs_get f p = None -> fs_get (fst (rdf_files q ps f log)) p = None.
+Proof.
+  induction ps as [|x ps IH]; intros f log H; [exact H|].
+  cbn [rdf_files]. destruct (rdf_file q f x) as [f1 b] eqn:E. apply IH.
+  pose proof (rdf_file_shape q f x) as Hs. rewrite E in Hs. cbn [fst] in Hs.
+  destruct Hs as [->| ->]; [exact H | apply fs_del_none_stays; exact H].
+Qed.
+
+Lemma rdf_files_removes q p v h ps : forall f log,
+  qfile_get q p = Some v -> (v = None \/ v = Some h) ->
+  In p ps -> fs_get f p = Some (FFile h) ->
+  fs_get (fst (rdf_files q ps f log)) p = None.
+Proof.
+  induction ps as [|x ps IH]; intros f log Hq Hv Hin Hg; [destruct Hin|].
+  cbn [rdf_files]. destruct (rdf_file q f x) as [f1 b] eqn:E.
+  destruct (str_eqb x p) eqn:Exp.
+  - apply str_eqb_eq in Exp. subst x. apply rdf_files_none_stays.
+    unfold rdf_file in E. rewrite Hq in E. unfold rm_file, refreshed in E. rewrite Hg in E.
+    destruct Hv as [-> | ->].
+    + inversion E. apply fs_get_del_same.
+    + rewrite N.eqb_refl in E. inversion E. apply fs_get_del_same.
+  - apply str_eqb_neq in Exp. destruct Hin as [Hin|Hin]; [contradiction|].
+    apply IH; [exact Hq | exact Hv | exact Hin|].
+    pose proof (rdf_file_shape q f x) as Hs. rewrite E in Hs. cbn [fst] in Hs.
+    destruct Hs as [->| ->]; [exact Hg | rewrite fs_get_del_other by congruence; exact Hg].
+Qed.
+
+Lemma in_dedup x l : In x l -> In x (dedup l).
+Proof.
+  induction l as [|a l IH]; intros H; [destruct H|]. cbn [dedup].
+  destruct (existsb (str_eqb a) l) eqn:E.
+  - destruct H as [->|H]; [|apply IH; exact H]. apply IH.
+    apply existsb_exists in E. destruct E as [y [Hy Hey]]. apply str_eqb_eq in Hey. subst. exact Hy.
+  - destruct H as [->|H]; [left; reflexivity | right; apply IH; exact H].
+Qed.
+
+Lemma in_insert_desc x y l : y = x \/ In y l -> In y (insert_desc x l).
+Proof.
+  induction l as [|a l IH]; intros H; cbn [insert_desc].
+  - destruct H as [->|[]]. left. reflexivity.
+  - destruct (lex_lt x a).
+    + destruct H as [->|[->|H]]; [right; apply IH; left; reflexivity | left; reflexivity | right; apply IH; right; exact H].
+    + destruct H as [->|H]; [left; reflexivity | right; exact H].
+Qed.
+
+Lemma in_sort_desc y l : In y l -> In y (sort_desc l).
+Proof.
+  induction l as [|a l IH]; intros H; [destruct H|]. cbn [sort_desc fold_right].
+  apply in_insert_desc. destruct H as [->|H]; [left; reflexivity | right; apply IH; exact H].
+Qed.
+
+Lemma qfile_get_in q p v : qfile_get q p = Some v -> In p (map fst (qfiles q)).
+Proof.
+  unfold qfile_get. destruct (find _ (qfiles q)) as [e|] eqn:Hf; [|discriminate]. intros _.
+  apply find_some in Hf. destruct Hf as [Hin He]. apply str_eqb_eq in He. rewrite <- He. apply in_map. exact Hin.
+Qed.
+
+Lemma rdf_removes q f p v h :
+  qfile_get q p = Some v -> (v = None \/ v = Some h) -> fs_get f p = Some (FFile h) ->
+  fs_get (r_fs (remove_deletable_files q f)) p = None.
+Proof.
+  intros Hq Hv Hg. unfold remove_deletable_files.
+  destruct (rdf_files q _ f []) as [f1 flog] eqn:H1.
+  destruct (prune_dirs (qdirs q) f1) as [f2 dlog] eqn:H2. cbn [r_fs].
+  assert (fs_get f1 p = None) as Hnone.
+  { pose proof (rdf_files_removes q p v h (sort_desc (dedup (map fst (qfiles q)))) f [] Hq Hv) as Hr.
+    rewrite H1 in Hr. cbn [fst] in Hr. apply Hr; [|exact Hg].
+    apply in_sort_desc, in_dedup. apply (qfile_get_in q p v Hq). }
+  unfold prune_dirs in H2.
+  pose proof (prune_loop_inv f1 _ _ f1 [] [] f2 dlog (trace_inv_init f1) H2) as Hinv.
+  destruct (fs_get f2 p) as [e|] eqn:E; [|reflexivity].
+  apply (ti_sub _ _ _ _ Hinv) in E. congruence.
+Qed.
+
+Theorem orphans_removed c g f n v h :
+  existsb (guard_fires c) finalize_guards = false ->          (* successful, unrestricted, cleaning enabled *)
+  keys_nodup g -> deps_closed g ->
+  In n (gnodes g) -> nkind n = KFILE -> ndet n = true ->
+  is_revert_target g n = false ->                                (* not an output of an attached optional step *)
+  bd_value n = Some v -> (v = None \/ v = Some h) ->             (* VOLATILE, or BUILT/OUTDATED with recorded hash h *)
+  fs_get f (nlabel n) = Some (FFile h) ->                        (* on disk, unmodified when a hash is recorded *)
+  (~ exists S, self_supporting g S /\ In (nkey n) S) ->          (* nothing attached and no cycle holds it *)
+  let r := finalize c (init_state g f) in
+  ~ In (nkey n) (map nkey (gnodes (s_g r))) /\ fs_get (s_fs r) (nlabel n) = None.
+Proof.
+  intros Hguard Hnd Hclosed Hn Hkind Hdet Hnot_rev Hv Hvv Hdisk Hfree. cbv zeta.
+  rewrite (finalize_unguarded c g f Hguard).
+  destruct (revert_optional g empty_queue) as [g1 q1] eqn:Hrev. cbv zeta. cbn [s_g s_fs].
+  assert (g1 = fst (revert_optional g empty_queue)) as Hg1 by (rewrite Hrev; reflexivity).
+  assert (prestep g1 = cleanup_graph g) as Hcg by (unfold cleanup_graph; rewrite Hg1; reflexivity).
+  (* the node as the deletion loop sees it *)
+  set (n2 := prestep_node g1 (revert_node g n)).
+  assert (revert_node g n = n) as Hrn.
+  { unfold revert_node. assert (is_optional_step n = false) as ->.
+    { unfold is_optional_step. unfold nkind in Hkind. unfold nkind. rewrite Hkind. reflexivity. }
+    rewrite Hnot_rev. reflexivity. }
+  assert (nkey n2 = nkey n) as Hk2 by (unfold n2; rewrite prestep_node_key, Hrn; reflexivity).
+  assert (In n2 (gnodes (prestep g1))) as Hn2.
+  { rewrite Hcg, cleanup_graph_nodes. apply in_map_iff. exists n. rewrite <- Hg1. split; [reflexivity | exact Hn]. }
+  assert (keys_nodup (prestep g1)) as Hnd2 by (unfold keys_nodup; rewrite Hcg, cleanup_graph_keys; exact Hnd).
+  assert (deps_closed (prestep g1)) as Hcl2 by (rewrite Hcg; apply cleanup_graph_closed; exact Hclosed).
+  (* graph part *)
+  assert (~ In (nkey n) (map nkey (gnodes (dd_g (workflow_dd g1))))) as Hgone.
+  { unfold workflow_dd. intros Hin. apply (dd_survivors (prestep g1) Hnd2 Hcl2) in Hin.
+    destruct Hin as [S [Hss HS]]. apply Hfree. exists S. split; [|exact HS].
+    apply cleanup_graph_ss. rewrite <- Hcg. exact Hss. }
+  split; [exact Hgone|].
+  (* n2 was deleted, so it was queued *)
+  assert (In n2 (dd_deleted (workflow_dd g1))) as Hdel.
+  { unfold workflow_dd. rewrite trellis_dd_deleted. apply -> in_rev.
+    destruct (dd_loop_partition (dd_fuel (prestep g1)) (prestep g1) [] n2 Hnd2 Hn2) as [Hkeep|Hacc]; [|exact Hacc].
+    exfalso. apply Hgone. unfold workflow_dd. rewrite trellis_dd_keys, <- Hk2. apply in_map. exact Hkeep. }
+  assert (nkind n2 = KFILE) as Hkind2 by (unfold nkind; rewrite Hk2; exact Hkind).
+  assert (nlabel n2 = nlabel n) as Hlab2 by (unfold nlabel; rewrite Hk2; reflexivity).
+  assert (bd_value n2 = Some v) as Hv2.
+  { unfold bd_value, n2. rewrite prestep_node_fstate, prestep_node_fhash, Hrn. exact Hv. }
+  rewrite <- Hlab2.
+  apply (rdf_removes _ f (nlabel n2) v h); [|exact Hvv | rewrite Hlab2; exact Hdisk].
+  apply queue_deleted_sets; [exact Hdel | exact Hkind2 | | exact Hv2].
+  intros x Hx Hxk Hxl.
+  apply (nodup_map_inj nkey (gnodes (prestep g1))); [exact Hnd2 | | exact Hn2 |].
+  - unfold workflow_dd in Hx. rewrite trellis_dd_deleted in Hx. apply in_rev in Hx.
+    unfold dd_raw in Hx. apply dd_loop_acc_sub in Hx. destruct Hx as [[]|Hx]. exact Hx.
+  - unfold nkind in Hxk, Hkind2. unfold nlabel in Hxl.
+    destruct (nkey x) as [kx lx], (nkey n2) as [k2 l2]. cbn [fst snd] in *. congruence.
+Qed.
+
+(* ---- C07: marked directories that the file removals left empty are pruned ------------------- *)
+
+Lemma fs_del_length_lt f x e : fs_get f x = Some e -> (length (fs_del f x) < length f)%nat.
+Proof.
+  intros H. apply fs_get_some_in in H. unfold fs_del.
+  apply filter_length_lt with (x := (x, e)); [exact H|]. cbn [fst]. rewrite str_eqb_refl. reflexivity.
+Qed.
+
+Lemma dir_empty_del f x d : dir_empty f d = true -> dir_empty (fs_del f x) d = true.
+Proof.
+  unfold dir_empty. rewrite !negb_true_iff. intros H.
+  destruct (existsb (fun e => under d (fst e)) (fs_del f x)) eqn:E; [|reflexivity].
+  apply existsb_exists in E. destruct E as [e [He Hu]]. unfold fs_del in He. apply filter_In in He.
+  assert (existsb (fun e => under d (fst e)) f = true) as Hx by (apply existsb_exists; exists e; split; [apply He | exact Hu]).
+  congruence.
+Qed.
+
+Lemma prune_loop_none_stays p fuel : forall todo f log,
+  fs_get f p = None -> fs_get (fst (prune_loop fuel todo f log)) p = None.
+Proof.
+  induction fuel as [|fuel IH]; intros todo f log H; [exact H|].
+  cbn [prune_loop]. destruct todo as [|d rest]; [exact H|].
+  destruct (rmdir_if_empty f d) as [f1 b] eqn:Hr. apply rmdir_if_empty_spec in Hr.
+  destruct Hr as [[-> [_ [_ ->]]]|[-> ->]].
+  - apply IH. apply fs_del_none_stays. exact H.
+  - apply IH. exact H.
+Qed.
+
+Lemma prune_loop_removes_empty d fuel : forall todo f log,
+  (length todo + length f < fuel)%nat -> In d todo ->
+  fs_get f d = Some FDir -> dir_empty f d = true ->
+  fs_get (fst (prune_loop fuel todo f log)) d = None.
+Proof.
+  induction fuel as [|fuel IH]; intros todo f log Hlen Hin Hg He; [lia|].
+  cbn [prune_loop]. destruct todo as [|x rest]; [destruct Hin|].
+  destruct (str_eqb x d) eqn:Exd.
+  - apply str_eqb_eq in Exd. subst x. unfold rmdir_if_empty. rewrite Hg, He.
+    apply prune_loop_none_stays. apply fs_get_del_same.
+  - apply str_eqb_neq in Exd. destruct Hin as [Hin|Hin]; [contradiction|].
+    destruct (rmdir_if_empty f x) as [f1 b] eqn:Hr. apply rmdir_if_empty_spec in Hr.
+    cbn [length] in Hlen.
+    destruct Hr as [[-> [Hgx [_ ->]]]|[-> ->]].
+    + pose proof (fs_del_length_lt f x FDir Hgx) as Hlt.
+      apply IH.
+      * destruct (parent_ok (dirname x)); cbn [length]; lia.
+      * destruct (parent_ok (dirname x)); [right; exact Hin | exact Hin].
+      * rewrite fs_get_del_other by congruence. exact Hg.
+      * apply dir_empty_del. exact He.
+    + apply IH; [lia | exact Hin | exact Hg | exact He].
+Qed.
+
+(* Full statement (not proved; validated by E1a/E1c and the oracle): no marked directory is an
+   empty directory at the end.  Proved below: the case where the directory is already empty once
+   the queued files are gone, i.e. a directory that held nothing but removed outputs. *)
+Definition dirs_pruned_when_empty_full : Prop :=
+  forall q f d, In d (qdirs q) ->
+    let r := remove_deletable_files q f in
+    ~ (fs_get (r_fs r) d = Some FDir /\ dir_empty (r_fs r) d = true).
+
+Theorem dirs_pruned_when_empty_partial q f d :
+  In d (qdirs q) ->
+  let f1 := fst (rdf_files q (sort_desc (dedup (map fst (qfiles q)))) f []) in
+  fs_get f1 d = Some FDir -> dir_empty f1 d = true ->
+  fs_get (r_fs (remove_deletable_files q f)) d = None.
+Proof.
+  intros Hin. cbv zeta. intros Hg He. unfold remove_deletable_files.
+  destruct (rdf_files q _ f []) as [f1 flog] eqn:H1. cbn [fst] in Hg, He.
+  destruct (prune_dirs (qdirs q) f1) as [f2 dlog] eqn:H2. cbn [r_fs].
+  unfold prune_dirs in H2.
+  pose proof (prune_loop_removes_empty d (prune_fuel (sort_desc (dedup (qdirs q))) f1)
+                (sort_desc (dedup (qdirs q))) f1 []) as Hp.
+  rewrite H2 in Hp. cbn [fst] in Hp. apply Hp; [unfold prune_fuel; lia | | exact Hg | exact He].
+  apply in_sort_desc, in_dedup. exact Hin.
+Qed.
+
+(* the parent directory of a deleted file node is marked, unless it is the project root or
+   (when the source says so) owned by an attached static tree *)
+Lemma before_delete_marks_parent trees x q :
+  nkind x = KFILE ->
+  let d := normdir (dirname (nlabel x)) in
+  is_dot d || (mark_dir_skips_static_trees && owned_by_tree trees d) = false ->
+  In d (qdirs (before_delete trees x q)).
+Proof.
+  intros Hk. cbv zeta. intros Hskip. unfold before_delete. rewrite Hk, N.eqb_refl.
+  unfold mark_dir. rewrite Hskip. cbn [qdirs]. left. reflexivity.
 Qed.
